@@ -7,7 +7,7 @@ EXPLANATION = ('Value-flow normal forms of the public stats::split_rhat_mean_ess
                'W = mean_j (1/d) sum_t (x_jt - mean_j)^2 with d in {h, h-1}, var+ = (h-1)/h W + B/h; R-hat = sqrt(var+/W) (orientation); '
                'RunStats::from / from_f32_view agree; basic_stats reports the ends of the sorted data in the direction of the sort, the element at '
                'len div 2, mean and ddof-1 standard deviation; the sort comparator is a total order (total_cmp), never partial_cmp with None mapped to Equal.')
-FLOORS = {'obligations': 14}   # counted on the reference tree; fewer instantiated obligations is reported, never passed silently
+FLOORS = {'obligations': 17}   # counted on the reference tree; fewer instantiated obligations is reported, never passed silently
 TECHNIQUE = 'value-flow normal form vs specification table (role-located helpers, ndarray access canonicalisation)'
 SAMPLE = S('sample')
 R3 = {SAMPLE: 3}
@@ -45,6 +45,10 @@ def roles(ctx):
 
 def run(ctx):
     from .. import frame
+    for nm, root, al in (('stats::split_rhat_mean_ess', ctx.anchor('split', path='stats::split_rhat_mean_ess'), {}), ('stats::basic_stats', ctx.anchor('bs', path='stats::basic_stats'), {}),
+                         ('<RunStats as From<ArrayView3<T>>>::from', ctx.anchor('from', name='from', trait='std::convert::From', self_head='stats::RunStats'), {'narrow': 1})):
+        if root is not None:
+            narrowing_budget(ctx, 'C11', nm, [root], al, why='diagnostics are computed in f32 by design: the one conversion is the element-wise to_f32 at the RunStats::from entry point; a conversion to a fixed narrower float type (or an f64 -> element-type read-back) on this path changes values for wider element types / back ends', sp=root['sp'])
     frame.std_impls_derived(ctx, 'C11', ['stats::RunStats', 'stats::BasicStats'])
     A = 'stats::split_rhat_mean_ess'
     b, ev, bodies = roles(ctx)
